@@ -8,6 +8,7 @@ import (
 	"encoding/binary"
 	"errors"
 	"fmt"
+	"github.com/jhalter/mobius/internal/verifhook"
 	"golang.org/x/text/encoding/charmap"
 	"golang.org/x/time/rate"
 	"io"
@@ -198,10 +199,12 @@ func (s *Server) sendTransaction(t Transaction) error {
 func (s *Server) processOutbox() {
 	for {
 		t := <-s.outbox
+		verifhook.Event("outbox.dequeued", s, t.ClientID, uint32(t.Type[0])<<8|uint32(t.Type[1]))
 		go func() {
 			if err := s.sendTransaction(t); err != nil {
 				s.Logger.Error("error sending transaction", "err", err)
 			}
+			verifhook.Event("outbox.sent", s, t.ClientID, uint32(t.Type[0])<<8|uint32(t.Type[1]))
 		}()
 	}
 }
@@ -349,6 +352,7 @@ func (s *Server) NewClientConn(conn io.ReadWriteCloser, remoteAddr string) *Clie
 	}
 
 	s.ClientMgr.Add(clientConn)
+	verifhook.Event("conn.registered", s, clientConn.ID, 0)
 
 	return clientConn
 }
@@ -454,6 +458,8 @@ func (s *Server) handleNewConnection(ctx context.Context, rwc io.ReadWriteCloser
 		c.Flags.Set(UserFlagAdmin, 1)
 	}
 
+	verifhook.Event("login.ok", s, c.ID, 0)
+
 	s.outbox <- c.NewReply(&clientLogin,
 		NewField(FieldVersion, []byte{0x00, 0xbe}),
 		NewField(FieldCommunityBannerID, []byte{0, 0}),
@@ -520,6 +526,7 @@ func (s *Server) handleNewConnection(ctx context.Context, rwc io.ReadWriteCloser
 		}
 
 		c.handleTransaction(t)
+		verifhook.Event("tran.handled", s, c.ID, uint32(t.Type[0])<<8|uint32(t.Type[1]))
 	}
 	return nil
 }
